@@ -308,6 +308,14 @@ func EncodedLength(n datamodel.Node) (int64, error) {
 	case datamodel.Kind_Bool:
 		return 1, nil // 0xf4 or 0xf5
 	case datamodel.Kind_Int:
+		if uin, ok := n.(datamodel.UintNode); ok {
+			// same probe as the encoder: unsigned values may exceed the int64 range
+			v, err := uin.AsUint()
+			if err != nil {
+				return 0, err
+			}
+			return uintLength(v), nil // major 0, as small as possible
+		}
 		v, err := n.AsInt()
 		if err != nil {
 			return 0, err
